@@ -1,5 +1,6 @@
 import GoSQLXModel.Gen.Structure
 import GoSQLXModel.Model.Metrics
+import GoSQLXModel.Proofs.MetricsProgress
 import GoSQLXModel.Gen.SharedState
 import GoSQLXModel.Gen.Known
 import GoSQLXModel.Spec.MetricsSpec
@@ -14,6 +15,9 @@ import GoSQLXModel.Spec.MetricsSpec
 * `Metrics.cas_exact`, `max_exact`, `min_exact` — for every set of threads and every schedule of the
   load / compare-and-swap micro-steps, the final min/max is a recorded value and none is better.
   `lost_update_counterexample`: the load/store variant (the code before the CAS fix) has a losing schedule.
+* `recorder_alone_finishes`, `finishing_schedule_exists` (Proofs/MetricsProgress.lean) — the CAS loop is obstruction
+  free (two undisturbed micro-steps finish a recorder) and every workload has a schedule that runs all recorders to
+  completion: the "have finished" hypothesis of the exactness theorems is satisfiable for every list of sizes.
 * `Metrics.isolation` — holders that share no state: every interleaving gives each holder its sequential result.
 * `gen_metrics_protocol` — the program of RecordTokenization / RecordParse re-extracted from the source
   *is* the protocol the theorems speak about (expectation obligation), and no metrics function touches
@@ -65,6 +69,13 @@ theorem totals_exact (sizes : List Nat) (s1 s2 s3 : List Nat)
   refine ⟨?_, ?_, (max_exact sizes s3 h3).1, (max_exact sizes s3 h3).2⟩
   · rw [adds_exact_finished 0 _ s1 h1, pendingSum_ones]; omega
   · rw [adds_exact_finished 0 _ s2 h2, pendingSum_singletons]; omega
+
+theorem recorder_alone_finishes (cur : Nat) (t : Thr Nat) (h : t.pc = .start) :
+    (stepThr id true (stepThr id true cur t).1 (stepThr id true cur t).2).2.pc = .fin := solo_finishes id cur t h
+
+/-- the hypotheses of `totals_exact` can be met for every workload -/
+theorem finishing_schedule_exists (sizes : List Nat) :
+    ∃ s3, ∀ t ∈ (run id true 0 (initThreads sizes) s3).2, t.pc = .fin := exists_finishing_schedule id 0 sizes
 
 /-- non-vacuity: a complete schedule of three recorders exists and yields the expected totals -/
 example : (run id true 0 (initThreads [7, 3, 9]) [0, 1, 2, 0, 1, 2, 2, 2, 1]).1 = 9 ∧
